@@ -11,6 +11,7 @@
   mirror decrease) are C18 / C16; the composed system-level statement is not a single theorem.
 -/
 import Krp.Props.C08
+import Krp.Props.C01
 import Krp.Props.C04
 import Krp.Props.C12
 import Krp.Lemmas.Calm
@@ -482,5 +483,81 @@ theorem C09_stsei_unbond_tx_succeeds (s : Sys) (u : Addr) (amt : Nat)
   · rw [hs4]; show st'.reqS = _
     rw [sb'.reqS, hub3]; show st.reqS + amt = _; rw [sb.reqS, hubeq]
   · rw [hs4]; show s3.stsei.supply + amt = _; rw [hs3]; exact sup2
+
+
+/-! ### once the unbonding period has passed, WithdrawUnbonded succeeds — as a whole transaction,
+    in every state reached without slashing of the unbonding stake -/
+
+theorem processWithdrawRate_ok (h : HubSt) (cutoff bal : Nat) (hP : h.prevHubBalance ≤ bal) :
+    ∃ h1, h.processWithdrawRate cutoff bal = .ok h1 := by
+  unfold HubSt.processWithdrawRate
+  simp only []
+  split
+  · exact ⟨_, rfl⟩
+  · have : (signedSub bal h.prevHubBalance).2 = false := by
+      unfold signedSub; rw [if_neg (by omega)]
+    rw [this]
+    exact ⟨_, rfl⟩
+
+/-- **A holder whose matured claims are worth at least one base unit can withdraw them — the whole
+    transaction succeeds and pays exactly the released share.** `FullQ s []` is what
+    `C01_funded_reachable_unslashed` establishes for every state reached without slashing of the
+    unbonding stake (released claims funded, arrivals accounted for, history in shape); E2, E1 and
+    `now ≥ unbonding_period` are the envelope. `h1` is the hub state after the release the
+    withdrawal performs (`process_withdraw_rate` at the current time and balance), which always
+    exists in such a state. -/
+theorem C09_matured_withdraw_tx_succeeds (s : Sys) (u : Addr) (inv : FullQ s [])
+    (hp : s.hub.isPaused = false) (hu : u ≠ hubA)
+    (he2 : s.hub.unbonding = s.chain.unbondingTime)
+    (he1 : s.chain.bank hubA 0 - s.hub.prevHubBalance ≤ D)
+    (hnow : s.hub.unbonding ≤ s.chain.time) :
+    ∃ h1, s.hub.processWithdrawRate (s.chain.time - s.hub.unbonding) (s.chain.bank hubA 0) = .ok h1 ∧
+      (1 ≤ (h1.finished u).1 →
+        ∃ s', s.exec (.wasm u hubA (.hub .withdrawUnbonded) []) = (s', .ok ()) ∧
+          s'.chain.bank u 0 = s.chain.bank u 0 + (h1.finished u).1 ∧
+          (s'.hub.finished u).1 = 0) := by
+  -- prev_hub_balance is in the account
+  obtain ⟨A, rst, hq, _, _, hle⟩ := inv.arr.split
+  have hA : A = [] := by
+    cases A with
+    | nil => rfl
+    | cons p t => simp only [List.cons_append] at hq; cases hq
+  subst hA
+  have hP : s.hub.prevHubBalance ≤ s.chain.bank hubA 0 := by
+    have : s.hub.prevHubBalance + maturedSum s.hub s.chain.unbondingTime s.chain.time ≤ s.chain.bank hubA 0 := by
+      simpa [hubOutAll] using hle
+    omega
+  obtain ⟨h1, hrel⟩ := processWithdrawRate_ok s.hub (s.chain.time - s.hub.unbonding) (s.chain.bank hubA 0) hP
+  refine ⟨h1, hrel, fun hpos => ?_⟩
+  -- the release meets the side condition (arrivals are accounted for)
+  have hm : (Msg.wasm u hubA (.hub .withdrawUnbonded) []).sentFrom ≠ hubA := hu
+  have inv1 := FullQ.push s _ inv hm
+  have hok : WdOk s (.wasm u hubA (.hub .withdrawUnbonded) []) := by
+    intro sender funds s1 heq hmv
+    injection heq with e1 _ _ e4
+    subst e1; subst e4
+    simp only [Sys.moveFunds] at hmv
+    injection hmv with hmv; subst hmv
+    exact ⟨he2, he1⟩
+  have hsafe := SafeTop.of_arrive s _ [] inv1.arr inv1.hist hok hm u [] s rfl rfl hnow
+  -- the handler accepts …
+  obtain ⟨h', ms, hw⟩ := C01_withdraw_succeeds s.hub h1 s.hubEnv u inv.fund.claims inv.fund.funded hP
+    hsafe hnow hrel hpos
+  -- … and the payout goes through
+  obtain ⟨s', amt, hex, hms, _, _, hbu, hh, _⟩ := C01_withdraw_tx_pays s u h' ms hp hu hw
+  have pr := C01_pays_recorded_share s.hub h' s.hubEnv u ms hw
+  obtain ⟨h1', hrel', _, _, hms', _, _⟩ := pr
+  have e1 : h1' = h1 := by
+    have : (Except.ok h1' : Res HubSt) = .ok h1 := by rw [← hrel', ← hrel]; rfl
+    injection this
+  subst e1
+  have eamt : amt = (h1'.finished u).1 := by
+    rw [hms'] at hms
+    injection hms with hms _
+    injection hms with _ _ _ ha
+    exact ha.symm
+  refine ⟨s', hex, by rw [hbu, eamt], ?_⟩
+  rw [hh]
+  exact (C01_paid_once s.hub h' s.hubEnv u ms hw).2
 
 end Krp
